@@ -243,7 +243,11 @@ class FilteredResourceObserver:
         if new_main is None:
             return None
         diff = resource.path[len(main.path) :]
-        return resource.project.get_resource(new_main.path + diff)
+        # a removed resource stays watched, so `resource` and its new
+        # location need not exist
+        if resource.is_folder():
+            return resource.project.get_folder(new_main.path + diff)
+        return resource.project.get_file(new_main.path + diff)
 
 
 class ChangeIndicator:
